@@ -1733,6 +1733,9 @@ _NP_FUNCS = {
     "heaviside": lambda a, h0: _np_ewise2(a, h0, lambda x, h: Q(1) if x > 0 else Q(0) if x < 0 else h),
     "moveaxis": lambda a, s_, d_: _np_moveaxis(a, s_, d_),
     "put": lambda a, ind, v: _np_put(a, ind, v),
+    "vstack": lambda seq, **k: _np_concatenate([(lambda x: x.reshape(1, -1) if x.ndim == 1 else x)(XArray.from_nested(s_)) for s_ in seq], 0),
+    "cumsum": lambda a, axis=None, **k: _np_cumsum(a, axis),
+    "fromiter": lambda it, dtype=None, count=-1: (lambda v: XArray((len(v),), v, "i" if dtype is int else "f"))([exact(x) for x in it]),
     "not_equal": lambda a, b: _np_ewise2(a, b, lambda x, y: not _same(x, y)),
     "equal": lambda a, b: _np_ewise2(a, b, lambda x, y: _same(x, y)),
     "array_equal": lambda a, b: (lambda A, B: A.shape == B.shape and all(exact(x) == exact(y) for x, y in zip(A.data, B.data)))(XArray.from_nested(a), XArray.from_nested(b)),
@@ -1809,6 +1812,17 @@ def _np_ravel_multi_index(multi, dims):
             idx = idx * d + v
         out.append(idx)
     return XArray((len(out),), out, "i")
+
+
+def _np_cumsum(a, axis=None):
+    a = XArray.from_nested(a)
+    if axis is not None and a.ndim != 1:
+        raise XArrayError("np.cumsum along an axis of an n-d array is not modelled")
+    out, tot = [], 0
+    for x in a.data:
+        tot = tot + x
+        out.append(tot)
+    return XArray((len(out),), out, a.dtype)
 
 
 def _np_put(a, ind, v):
